@@ -16,6 +16,7 @@ import (
 	"time"
 
 	"github.com/hashicorp/go-hclog"
+	gometrics "github.com/hashicorp/go-metrics/compat"
 	"github.com/hashicorp/raft"
 	wal "github.com/hashicorp/raft-wal"
 	"github.com/hashicorp/raft-wal/metadb"
@@ -42,6 +43,82 @@ type tally struct {
 	mu  sync.Mutex
 	all map[string]uint64
 	g   map[string]uint64
+	// the other bundled collector, metrics.GoMetricsCollector (prefix + label), writing to an
+	// in-memory go-metrics sink; allf/gf shadow what it must hold (go-metrics takes float32)
+	gc   *metrics.GoMetricsCollector
+	sink *gometrics.InmemSink
+	allf map[string]float64
+	gf   map[string]float32
+	gerr string
+}
+
+var goMetricsPrefix = []string{"vf", "wal"}
+var goMetricsLabels = []gometrics.Label{{Name: "node", Value: "n1"}}
+
+func newGoMetrics() (*metrics.GoMetricsCollector, *gometrics.InmemSink) {
+	sink := gometrics.NewInmemSink(1000*time.Hour, 2000*time.Hour)
+	cfg := gometrics.DefaultConfig("svc")
+	cfg.EnableHostname = false
+	cfg.EnableHostnameLabel = false
+	cfg.EnableServiceLabel = false
+	cfg.EnableRuntimeMetrics = false
+	gm, err := gometrics.New(cfg, sink)
+	if err != nil {
+		panic(err)
+	}
+	return metrics.NewGoMetricsCollector(goMetricsPrefix, goMetricsLabels, gm), sink
+}
+
+// forward one observation to the GoMetricsCollector; a panic there is remembered (the
+// bundled collectors must never panic)
+func (t *tally) goMetrics(f func()) {
+	defer func() {
+		if e := recover(); e != nil && t.gerr == "" {
+			t.gerr = fmt.Sprintf("panic: %v", e)
+		}
+	}()
+	f()
+}
+
+// goMetricsDiff compares the go-metrics sink with what was sent to the GoMetricsCollector
+func (t *tally) goMetricsDiff() string {
+	t.mu.Lock()
+	defer t.mu.Unlock()
+	if t.gerr != "" {
+		return t.gerr
+	}
+	if len(goMetricsPrefix) != 2 || goMetricsPrefix[0] != "vf" || goMetricsPrefix[1] != "wal" {
+		return fmt.Sprintf("the collector modified the caller's prefix slice: %v", goMetricsPrefix)
+	}
+	key := func(n string) string { return "svc.vf.wal." + n + ";node=n1" }
+	cs, gs := map[string]float64{}, map[string]float32{}
+	for _, iv := range t.sink.Data() {
+		iv.RLock()
+		for k, v := range iv.Counters {
+			cs[k] += v.Sum
+		}
+		for k, v := range iv.Gauges {
+			gs[k] = v.Value
+		}
+		iv.RUnlock()
+	}
+	for n, v := range t.allf {
+		if got, ok := cs[key(n)]; !ok || got != v {
+			return fmt.Sprintf("counter %s: sink holds %v under %q, %v was added", n, cs[key(n)], key(n), v)
+		}
+	}
+	if len(cs) != len(t.allf) {
+		return fmt.Sprintf("sink holds %d counters, %d were used", len(cs), len(t.allf))
+	}
+	for n, v := range t.gf {
+		if got, ok := gs[key(n)]; !ok || got != v {
+			return fmt.Sprintf("gauge %s: sink holds %v under %q, last set to %v", n, gs[key(n)], key(n), v)
+		}
+	}
+	if len(gs) != len(t.gf) {
+		return fmt.Sprintf("sink holds %d gauges, %d were used", len(gs), len(t.gf))
+	}
+	return ""
 }
 
 var counterNames = []string{"log_entry_bytes_written", "log_entries_written", "log_appends", "log_entry_bytes_read",
@@ -50,7 +127,9 @@ var counterNames = []string{"log_entry_bytes_written", "log_entries_written", "l
 func newTally() *tally {
 	defs := wal.MetricDefinitions
 	defs.Counters = append(append([]metrics.Descriptor(nil), defs.Counters...), verifier.MetricDefinitions.Counters...)
-	t := &tally{ac: metrics.NewAtomicCollector(defs), c: map[string]*uint64{}, all: map[string]uint64{}, g: map[string]uint64{}}
+	t := &tally{ac: metrics.NewAtomicCollector(defs), c: map[string]*uint64{}, all: map[string]uint64{}, g: map[string]uint64{},
+		allf: map[string]float64{}, gf: map[string]float32{}}
+	t.gc, t.sink = newGoMetrics()
 	for _, n := range counterNames {
 		t.c[n] = new(uint64)
 	}
@@ -61,6 +140,8 @@ func (t *tally) IncrementCounter(name string, delta uint64) {
 	t.mu.Lock() // one critical section: collectorDiff must never see one without the other
 	t.ac.IncrementCounter(name, delta)
 	t.all[name] += delta
+	t.goMetrics(func() { t.gc.IncrementCounter(name, delta) })
+	t.allf[name] += float64(float32(delta))
 	t.mu.Unlock()
 	if atomic.LoadInt32(&t.paused) == 0 {
 		if p, ok := t.c[name]; ok {
@@ -72,6 +153,8 @@ func (t *tally) SetGauge(name string, val uint64) {
 	t.mu.Lock()
 	t.ac.SetGauge(name, val)
 	t.g[name] = val
+	t.goMetrics(func() { t.gc.SetGauge(name, val) })
+	t.gf[name] = float32(val)
 	t.mu.Unlock()
 }
 
@@ -1008,6 +1091,9 @@ func (r *walRun) run() string {
 			emit(r.t.summary())
 			if d := r.t.collectorDiff(); d != "" {
 				r.c.witness("C20", "atomic-collector-summary", "metrics.AtomicCollector: "+d, r.line)
+			}
+			if d := r.t.goMetricsDiff(); d != "" {
+				r.c.witness("C20", "gometrics-collector", "metrics.GoMetricsCollector: "+d, r.line)
 			}
 			for _, n := range counterNames {
 				if n == "segment_rotations" {
